@@ -114,7 +114,73 @@ func runC16(c *Ctx) {
 			}
 		}
 		r.Floor("closure", n, 3, kind+" types with children for "+fnName)
+		// dispatch-reached: every path through the function reaches the type switch, except the one that has seen
+		// the node to be nil. An early return on any other condition (a depth budget, a size limit, a flag) leaves
+		// the nodes below unexamined while the result still looks complete.
+		var node *ssa.Parameter
+		var head *ssa.BasicBlock
+		for _, b := range fn.Blocks {
+			for _, in := range b.Instrs {
+				ta, ok := in.(*ssa.TypeAssert)
+				if !ok {
+					continue
+				}
+				if par, ok := ta.X.(*ssa.Parameter); ok && (head == nil || b.Index < head.Index) {
+					node, head = par, b
+				}
+			}
+		}
+		if head == nil {
+			r.Undecide("dispatch-reached", fnName, p.FnPos(fn), "no type switch on a parameter found in "+fnName)
+			return
+		}
+		// forbidden edges: the nil side of `node == nil` / `node != nil`
+		seen := map[*ssa.BasicBlock]bool{}
+		var bad *ssa.BasicBlock
+		var walk func(b *ssa.BasicBlock)
+		walk = func(b *ssa.BasicBlock) {
+			if seen[b] || b == head || bad != nil {
+				return
+			}
+			seen[b] = true
+			if len(b.Instrs) > 0 {
+				if _, isRet := b.Instrs[len(b.Instrs)-1].(*ssa.Return); isRet {
+					bad = b
+					return
+				}
+			}
+			nilSucc := -1
+			if iff, ok := b.Instrs[len(b.Instrs)-1].(*ssa.If); ok {
+				if bo, ok := iff.Cond.(*ssa.BinOp); ok && (bo.Op == token.EQL || bo.Op == token.NEQ) {
+					if (bo.X == ssa.Value(node) && core.IsNilConst(bo.Y)) || (bo.Y == ssa.Value(node) && core.IsNilConst(bo.X)) {
+						nilSucc = 0
+						if bo.Op == token.NEQ {
+							nilSucc = 1
+						}
+					}
+				}
+			}
+			for k, sc := range b.Succs {
+				if k == nilSucc {
+					continue
+				}
+				walk(sc)
+			}
+		}
+		walk(fn.Blocks[0])
+		if bad == nil {
+			r.OK("dispatch-reached", fnName, p.FnPos(fn), "every path with a non-nil node reaches the type switch")
+		} else {
+			pos := p.FnPos(fn)
+			for _, in := range bad.Instrs {
+				if in.Pos().IsValid() {
+					pos = p.Pos(in.Pos())
+				}
+			}
+			r.Violate("dispatch-reached", fnName, pos, fnName+" can return before its type switch although the node is not nil: whatever lies below that node is not examined, and nothing in the result says so")
+		}
 	}
+	r.Rule("dispatch-reached", "in scanStatement / scanExpression / scanExpressionForDangerousFunctions every path from the entry to a return passes the type switch on the node, except after the node was seen to be nil")
 	check("scanStatement", stmts, "statement")
 	check("scanExpression", exprs, "expression")
 	check("scanExpressionForDangerousFunctions", exprs, "expression")
